@@ -4,11 +4,14 @@ import (
 	"crypto/sha256"
 	"encoding/hex"
 	"fmt"
+	"io"
+	"os"
 	"path"
 	"path/filepath"
 	"sort"
 	"strings"
 	"testing"
+	"time"
 
 	"pgregory.net/rapid"
 )
@@ -31,6 +34,7 @@ func buildAll(c *BuildCase, root, prop string, vs *vlist) *built {
 			panic(fmt.Sprintf("generator produced a case the reference planner rejects: %v", err))
 		}
 		b.plans[f] = plan
+		failingPrelude(c, root, f)
 		out, err := c.BuildOne(root, f)
 		if err != nil {
 			vs.add(prop+".build", f, "valid configuration rejected: %v", err)
@@ -57,6 +61,30 @@ func modeOf(f string, e *PEntry) int64 {
 		return e.Mode &^ 0o170000
 	}
 	return e.Mode
+}
+
+// failingPrelude gives every checked build a history: in the same process, builds of the same format that FAIL come
+// first - one because the destination writer refuses the first write, one because a configured maintainer script
+// does not exist (the failure then happens late, inside the assembly of the control data). A packager must not carry
+// anything from a failed build into the next one; if it does, the checked build that follows shows it.
+func failingPrelude(c *BuildCase, root, f string) {
+	if cfg, err := c.ParseConfigFor(root, f); err == nil {
+		_ = packageInto(&cfg, f, &faultWriter{failAt: 0, budget: -1})
+	}
+	bad := cloneCase(c)
+	if bad.Scripts == nil {
+		bad.Scripts = map[string]string{}
+	}
+	// the script that sorts last for this format, so that everything before it is rendered first
+	slots := sortedKeys(slotsOf(f))
+	inner := slotsOf(f)
+	sort.Slice(slots, func(i, j int) bool { return inner[slots[i]] < inner[slots[j]] })
+	if len(slots) > 0 {
+		bad.Scripts[slots[len(slots)-1]] = "scripts/this-script-does-not-exist.sh"
+		if cfg, err := bad.ParseConfigFor(root, f); err == nil {
+			_ = packageInto(&cfg, f, io.Discard)
+		}
+	}
 }
 
 func shaOf(b []byte) string {
@@ -360,6 +388,38 @@ func checkC01(c *BuildCase) []Violation {
 			}
 		}
 		crossCompare(c, b, &vs)
+		if len(vs) == 0 && c.Again {
+			// history: the very same source paths are packaged again, now with another umask and after the
+			// mode and mtime of a source file changed on disk
+			c2 := cloneCase(c)
+			c2.Again = false
+			c2.Umask = 0o077
+			if c.Umask == 0o077 {
+				c2.Umask = 0o022
+			}
+			for i := range c2.Tree {
+				if c2.Tree[i].Kind == "file" && strings.HasPrefix(c2.Tree[i].Rel, "src/") {
+					c2.Tree[i].Mode = (c2.Tree[i].Mode ^ 0o044) | 0o400
+					c2.Tree[i].MTime += 3600
+					p := filepath.Join(root, c2.Tree[i].Rel)
+					_ = os.Chmod(p, goMode(c2.Tree[i].Mode))
+					t := time.Unix(c2.Tree[i].MTime, c2.Tree[i].NS)
+					_ = os.Chtimes(p, t, t)
+					break
+				}
+			}
+			b2 := buildAll(c2, root, "C01", &vs)
+			for _, f := range c2.formats() {
+				if d := b2.decoded[f]; d != nil {
+					var again vlist
+					compareTree(c2, f, d, b2.plans[f], &again)
+					for _, v := range again {
+						v.Detail = "second packaging of the same tree (umask " + fmt.Sprintf("%03o", c2.Umask) + ", one source re-chmod'ed): " + v.Detail
+						vs = append(vs, v)
+					}
+				}
+			}
+		}
 		return nil
 	})
 	if err != nil {
@@ -398,7 +458,11 @@ func TestC01(t *testing.T) {
 	}
 	rapid.Check(t, func(rt *rapid.T) {
 		c := genBuildCase(rt, c01Opts)
+		c.Again = rapid.IntRange(0, 3).Draw(rt, "again") == 0
 		labels, _, _ := classifyBuildCase(c)
+		if c.Again {
+			labels = append(labels, "packaged-again-under-other-umask")
+		}
 		st.Record(c, nontrivialC01(c), labels...)
 		st.Report(rt, c, checkC01(c))
 	})
